@@ -1311,8 +1311,70 @@ def r1011(facts, res):
     res.floor(R, 'loop passes of parse_rule that consume a token', n, 3)
 
 
+def r1012(facts, res):
+    """Inside a /* */ comment every character is looked at as a possible `*` of the closing `*/`.  The scanner fetches one
+    character per pass and peeks at the next one after a `*`; when the peeked character is not `/` it must be LEFT for the
+    next pass (it may itself be the `*` that closes the comment: `/** x **/`).  Decided on the path table of parse_ws: on every
+    pass of the comment loop that returns to the loop head, the cursor has advanced by the length of at most ONE fetched
+    character."""
+    R = 'R10.12'
+    from lrstep import widening_walker, loop_assigned, is_call
+    from linarith import lin
+    bs = [b for b in facts.lib_bodies(['cfgrammar']) if b.name == 'parse_ws' and b.kind != 'closure' and 'yacc::parser::YaccParser' in b.path]
+    if len(bs) != 1:
+        return res.lost(R, 'YaccParser::parse_ws not found (%d)' % len(bs))
+    b = bs[0]
+    loops = b.loops()
+    fetched = {}
+    for bb, t in b.calls_named('next'):
+        if 'Chars' not in ((callee_of(t).get('self_ty') or '') + (cpath(t) or '')):
+            continue
+        for ub, ut in b.calls(lambda x: cname(x) in ('unwrap', 'expect')):
+            if ut['args'] and b.op_root(ut['args'][0], through=())[0] == t['dest']['l']:
+                fetched[bb] = ut['dest']['l']
+    slash = [fb for fb, cl in fetched.items() if _char_tested_against(b, cl, 47)]
+    heads = set()
+    for sb in slash:
+        hs = [h for h, body in loops.items() if sb in body]
+        if len(hs) >= 2:     # a scan loop nested in the white-space loop
+            heads.add(min(hs, key=lambda h: len(loops[h])))
+    if not heads:
+        return res.ok(R, 'one-character-per-pass', loc_of(b), 'no nested scan loop looks for `/` after a fetched character here: not analysed (no instance)')
+    w = widening_walker(b, facts, max_paths=20000)
+    ps = w.run(0)
+    if w.overflow:
+        return res.lost(R, 'path bound exceeded in parse_ws')
+    n, bad = 0, []
+    for H in sorted(heads):
+        cursors = [l for l in loop_assigned(b, H) if b.lty(l) == 'usize' and b.name_of(l)]
+        for p in ps:
+            if p.end[0] != 'loop' or p.end[1] != H:
+                continue
+            for l in cursors:
+                v = p.env.get((l, ()))
+                if v is None:
+                    continue
+                d = lin(v)
+                base = [a for a, c in d.c.items() if isinstance(a, tuple) and a and a[0] == 'widen' and len(a) > 3 and a[2] == H and a[3] == l and c == 1]
+                if len(base) != 1:
+                    continue
+                n += 1
+                adv = sum(c for a, c in d.c.items() if a is not base[0] and is_call(a, 'len_utf8')) + d.k
+                other = [a for a, c in d.c.items() if a is not base[0] and not is_call(a, 'len_utf8')]
+                if adv >= 2 and not other:
+                    bad.append('on a pass of the scan loop (header bb%d) `%s` advances by the length of %d characters' % (H, b.name_of(l), adv))
+    key = 'one-character-per-pass'
+    if bad:
+        res.bad(R, key, loc_of(b, min(heads)), '; '.join(sorted(set(bad))[:2]) + ': a character that was only peeked at is skipped, so a `*` right after a `*` is never tried as the start of `*/`', {'function': b.path})
+    elif n:
+        res.ok(R, key, loc_of(b, min(heads)), 'on each of the %d passes that return to the head of the comment loop the cursor advances by at most one fetched character' % n)
+    else:
+        res.ok(R, key, loc_of(b), 'the comment loop keeps no cursor of the recognised form (a named usize advanced by len_utf8): not analysed')
+
+
 def run(facts, res):
     r107(facts, res)
+    r1012(facts, res)
     r1011(facts, res)
     r1010(facts, res)
     r109(facts, res)
